@@ -340,15 +340,6 @@ func c19Gen(r *Run, rng *gen.Rng, corpus []string) *c19Inv {
 	default:
 		inv.Targets = []string{rng.Pick([]string{"bash", "batch"}), rng.Pick([]string{"bash", "batch"}), rng.Pick([]string{"bash", "batch"})}
 	}
-	if rng.Chance(2) {
-		// a target named very often: counts around the width of an exit status and of a byte
-		n := rng.Pick2([]int{255, 256, 256, 257})
-		t := rng.Pick([]string{"bash", "batch"})
-		inv.Targets = nil
-		for k := 0; k < n; k++ {
-			inv.Targets = append(inv.Targets, t)
-		}
-	}
 	// option vector: pairs in a random order, short/long spellings
 	type pair struct{ k, v string }
 	pairs := []pair{{rng.Pick([]string{"-i", "--in"}), inv.InArg}, {rng.Pick([]string{"-o", "--out"}), inv.OutArg}}
@@ -1156,6 +1147,40 @@ func c19Round(r *Run, rng *gen.Rng, st *c19Stats, corpus []string, roundSize, sw
 			}
 			c.Spec.Files = append(files, simrt.FileSpec{Path: p, Data: old})
 		}
+		next = append(next, &c)
+	}
+	// a target named very often (counts around the width of an exit status and of a byte): three
+	// invocations per round, accepted and rejected programs alike, get their first target 255, 256
+	// or 257 times
+	for n, i := range order {
+		inv := invs[i]
+		if n%40 != 3 || !inv.Valid || len(inv.Targets) == 0 {
+			continue
+		}
+		size := 0
+		for _, f := range inv.Spec.Files {
+			if strings.HasSuffix(f.Path, ".tsh") || !strings.Contains(path.Base(f.Path), ".") {
+				size += len(f.Data)
+			}
+		}
+		if size > 12000 {
+			continue // (some hundred transpilations of a large program take longer than one invocation may)
+		}
+		c := *inv
+		c.Family = "many-targets"
+		cnt := []int{256, 255, 256, 257}[(n/40)%4]
+		c.Targets = nil
+		args := []string{inv.Spec.Args[0], "-i", inv.InArg, "-o", inv.OutArg}
+		for k := 0; k < cnt; k++ {
+			c.Targets = append(c.Targets, inv.Targets[0])
+			args = append(args, "-t", inv.Targets[0])
+		}
+		c.Spec.Args = args
+		c.OptShape = fmt.Sprintf("-i -o -t x%d", cnt)
+		b := *inv.Spec.Budgets
+		b.IO += 60 * cnt // (the budgets are per process: an invocation that transpiles some hundred times gets more)
+		b.Ticks += 2_000_000 * int64(cnt)
+		c.Spec.Budgets = &b
 		next = append(next, &c)
 	}
 	// what an earlier run that was killed half-way left behind: a file at exactly the name this
